@@ -146,8 +146,10 @@ void finishRun(RunResult* r) {
 
 using namespace hz;
 
-static uint64_t runSeed(uint64_t base, const std::string& family, uint64_t idx) {
-  return sim::hcomb(sim::hcomb(base, sim::hstr(family.c_str())), idx) >> 1;
+static uint64_t runSeed(uint64_t base, const Family* fam, uint64_t idx) {
+  uint64_t h = sim::hcomb(base, sim::hstr(fam->name));
+  if (fam->enumerating) return ((h & 0x7fffffffULL) << 32) | (idx & 0xffffffffULL);
+  return sim::hcomb(h, idx) >> 1;
 }
 
 static int execPlan(const plan::Plan& p, bool verbose) {
@@ -298,7 +300,7 @@ static int workerMain(int argc, char** argv) {
     if (budget > 0 && nowSec() - t0 > budget) break;
     uint64_t idx = from + k * step;
     const Family* fam = fl[idx % fl.size()];
-    uint64_t rs = runSeed(seed, fam->name, idx);
+    uint64_t rs = runSeed(seed, fam, idx / fl.size());
     std::string out, err;
     int status = 0;
     bool to = false;
